@@ -1,0 +1,111 @@
+//go:build verif
+
+package type5
+
+import (
+	. "github.com/cloudflare/pat-go/internal/vspec"
+	"github.com/cloudflare/pat-go/quicwire"
+	"github.com/cloudflare/pat-go/tokens"
+	"golang.org/x/crypto/cryptobyte"
+)
+
+var _ cryptobyte.String
+
+var _ = tokens.SpecTokenInput
+var _ = quicwire.MaxVarint
+
+// Ne is the size of a ristretto255 element (RFC 9497 section 4.1).
+const specNe = 32
+
+//@ func UnmarshalBatchedPrivateToken(data []byte) (token tokens.Token, err error)
+//@ props C01 C03 C04 C16
+//@ ensures (err == nil) == (len(data) >= 98+64)
+//@ ensures err == nil ==> token.TokenType == uint16(data[0])*256+uint16(data[1])
+//@ ensures err == nil ==> sameslice(token.Nonce, data[2:34]) && sameslice(token.Context, data[34:66]) && sameslice(token.KeyID, data[66:98]) && sameslice(token.Authenticator, data[98:98+64])
+//@ assigns none
+//@ alloc 0
+//@ end
+
+// struct { uint16 token_type = 0x0005; uint8 truncated_token_key_id; BlindedElement blinded_elements<V>; } TokenRequest
+// (draft-ietf-privacypass-batched-tokens): the element list is prefixed by its length in bytes as a QUIC varint.
+//
+// specT5ElementsAt: the n well-formed (32-byte) elements of xs are laid out back to back in enc from offset at.
+//
+//@ spec
+func specT5ElementsAt(enc string, at int, xs [][]byte) bool {
+	return Forall(0, len(xs), func(i int) bool {
+		return len(xs[i]) == specNe && Chunk(enc, at, specNe, i) == string(xs[i])
+	})
+}
+
+//@ func (r *BatchedPrivateTokenRequest) Marshal() (res []byte)
+//@ props C01 C04 C16
+//@ safety C03 C04
+//@ requires r.raw == nil
+//@ requires len(r.BlindedReq) <= 1<<20
+//@ requires forall(0, len(r.BlindedReq), func(i int) bool { return len(r.BlindedReq[i]) == specNe })
+//@ let n = len(r.BlindedReq)
+//@ let k = quicwire.SpecSizeVarint(uint64(specNe*len(r.BlindedReq)))
+//@ ensures len(res) == 3+k+specNe*n && res[0] == 0 && res[1] == 5 && res[2] == r.TokenKeyID
+//@ ensures quicwire.ConsumeVarintOK(string(res[3:])) && quicwire.ConsumeVarintValue(string(res[3:])) == uint64(specNe*n) && quicwire.ConsumeVarintLen(res[3]) == k
+//@ ensures specT5ElementsAt(string(res), 3+k, r.BlindedReq)
+//@ ensures sameslice(res, r.raw) && r.raw != nil
+//@ assigns r.raw
+//@ loop 0 vars(i int, bElmts *cryptobyte.Builder)
+//@   invariant 0 <= i && i <= len(r.BlindedReq) && bElmts != nil && fresh(bElmts) && !BuilderErr(bElmts)
+//@   invariant len(BuilderBytes(bElmts)) == specNe*i
+//@   invariant forall(0, i, func(j int) bool { return Chunk(BuilderBytes(bElmts), 0, specNe, j) == string(r.BlindedReq[j]) })
+//@ end
+
+//@ func (r *BatchedPrivateTokenRequest) Unmarshal(data []byte) (ok bool)
+//@ props C01 C03 C04 C16
+//@ let l = quicwire.ConsumeVarintValue(string(data[3:]))
+//@ let k = quicwire.ConsumeVarintLen(data[3])
+//@ let hdr = len(data) >= 4 && data[0] == 0 && data[1] == 5 && quicwire.ConsumeVarintOK(string(data[3:]))
+//@ ensures ok == (hdr && l <= uint64(len(data)-3-k) && l%specNe == 0)
+//@ ensures ok ==> r.TokenKeyID == data[2] && len(r.BlindedReq) == int(l)/specNe && fresh(r.BlindedReq)
+//@ ensures ok ==> specT5ElementsAt(string(data), 3+k, r.BlindedReq)
+//@ ensures ok ==> r.raw == nil
+//@ ensures string(data) == old(string(data))
+//@ assigns r.TokenKeyID, r.BlindedReq, r.raw
+//@ alloc 16*len(data) + 64
+//@ loop 0 vars(i int, elementCount int, blindedRequests []byte)
+//@   invariant 0 <= i && i <= elementCount && len(r.BlindedReq) == elementCount && fresh(r.BlindedReq) && len(blindedRequests) == specNe*elementCount
+//@   invariant forall(0, i, func(j int) bool { return len(r.BlindedReq[j]) == specNe && Chunk(string(blindedRequests), 0, specNe, j) == string(r.BlindedReq[j]) })
+//@   invariant r.TokenKeyID == data[2] && r.raw == nil
+//@ end
+
+// Decoding the encoding of a well-formed request (any number of 32-byte elements) returns it.
+//
+//@ lemma props C04
+func lemmaT5RequestRoundTrip(src, dst *BatchedPrivateTokenRequest) {
+	Vassume(src != nil && dst != nil && src != dst && src.raw == nil && len(src.BlindedReq) <= 1<<20)
+	Vassume(Forall(0, len(src.BlindedReq), func(i int) bool { return len(src.BlindedReq[i]) == specNe }))
+	enc := src.Marshal()
+	ok := dst.Unmarshal(enc)
+	Vassert(ok)
+	Vassert(dst.TokenKeyID == src.TokenKeyID && len(dst.BlindedReq) == len(src.BlindedReq))
+	Vassert(Forall(0, len(src.BlindedReq), func(i int) bool { return string(dst.BlindedReq[i]) == string(src.BlindedReq[i]) }))
+}
+
+// A type-5 decoder rejects every message tagged with another token type.
+//
+//@ lemma props C04
+func lemmaT5RejectsOtherTypes(r *BatchedPrivateTokenRequest, b []byte) {
+	Vassume(r != nil && len(b) >= 2 && (b[0] != 0 || b[1] != 5))
+	Vassert(!r.Unmarshal(b))
+}
+
+// Whenever the decoder accepts b, the canonical encoding of the decoded value is no longer than b
+// (the varint length may have been written in a longer form) and is what Marshal returns afterwards.
+//
+//@ lemma props C04
+func lemmaT5RequestReencode(r *BatchedPrivateTokenRequest, b []byte) {
+	Vassume(r != nil && len(b) <= 1<<24)
+	ok := r.Unmarshal(b)
+	Vassume(ok)
+	n := len(r.BlindedReq)
+	enc := r.Marshal()
+	Vassert(len(enc) <= len(b))
+	Vassert(enc[2] == b[2] && len(enc) == 3+quicwire.SpecSizeVarint(uint64(specNe*n))+specNe*n)
+}
